@@ -426,8 +426,12 @@ impl<'a> Searcher<'a> {
                 let buffer_partitions = self.partitioned_output_buffer.clone();
                 let buffer_partitions = buffer_partitions.iter().collect::<Vec<_>>();                 
                 
-                let mut results = vec![];
-                
+                let ordering_fields = self.query.ordering_fields.clone();
+                let directions = self.query.ordering_asc.clone();
+
+                // every group row together with the values it is ordered by
+                let mut results: Vec<(Vec<(String, String)>, Vec<String>)> = vec![];
+
                 buffer_partitions.iter().for_each(|f| {
                     let mut items: Vec<(String, String)> = Vec::new();
 
@@ -447,69 +451,64 @@ impl<'a> Searcher<'a> {
                                 column_expr
                             )
                         );
-                        let field_name = column_expr.to_string().to_lowercase();
+                        let field_name = column_expr.to_string();
                         items.push((field_name, record));
                     }
 
-                    results.push(items);
+                    // a sort key need not be selected: it is computed for the group like a column
+                    let sort_keys = ordering_fields
+                        .iter()
+                        .map(|ordering_expr| {
+                            let name = ordering_expr.to_string();
+                            match items.iter().find(|(field_name, _)| field_name.eq_ignore_ascii_case(&name)) {
+                                Some((_, record)) => record.clone(),
+                                None => format!(
+                                    "{}",
+                                    self.get_column_expr_value(
+                                        None,
+                                        &None,
+                                        &mut file_map,
+                                        Some(f.1),
+                                        ordering_expr
+                                    )
+                                ),
+                            }
+                        })
+                        .collect::<Vec<String>>();
+
+                    results.push((items, sort_keys));
                 });
 
-                if !self.query.ordering_fields.is_empty() {
-                    let ordering_fields = self
-                        .query
-                        .ordering_fields
+                if !ordering_fields.is_empty() {
+                    // numbers or text is decided per sort key, not per pair of rows (that is no order)
+                    let numeric = ordering_fields
                         .iter()
-                        .map(|f| f.to_string().to_lowercase())
-                        .collect::<Vec<String>>();
-                    let directions = self.query.ordering_asc.clone();
-                    let sorting_indices = ordering_fields
-                        .iter()
-                        .map(|f| {
-                            self.query
-                                .fields
-                                .iter()
-                                .map(|f| f.to_string().to_lowercase())
-                                .position(|g| &g == f)
-                                .unwrap_or(0)
-                        })
-                        .collect::<Vec<usize>>();
+                        .map(|ordering_expr| ordering_expr.contains_numeric())
+                        .collect::<Vec<bool>>();
 
                     results.sort_by(|a, b| {
-                        sorting_indices
-                            .iter()
-                            .enumerate()
-                            .map(|(idx, i)| {
-                                if let Some(a) = a.get(*i) {
-                                    if let Ok(a) = a.1.parse::<i64>() {
-                                        if let Some(b) = b.get(*i) {
-                                            if let Ok(b) = b.1.parse::<i64>() {
-                                                return if directions[idx] { 
-                                                    a.cmp(&b) 
-                                                } else { 
-                                                    b.cmp(&a) 
-                                                };
-                                            }
-                                        }
-                                    }
-                                }
-                                // fractional values (e.g. AVG) are compared numerically as well
-                                if let (Some(a), Some(b)) = (a.get(*i), b.get(*i)) {
-                                    if let (Ok(a), Ok(b)) = (a.1.parse::<f64>(), b.1.parse::<f64>()) {
-                                        if let Some(ord) = a.partial_cmp(&b) {
-                                            return if directions[idx] { ord } else { ord.reverse() };
-                                        }
-                                    }
-                                }
-                                if directions[idx] { 
-                                    a.get(*i).unwrap().1.cmp(&b.get(*i).unwrap().1) 
-                                } else { 
-                                    b.get(*i).unwrap().1.cmp(&a.get(*i).unwrap().1) 
-                                } 
-                            })
-                            .find(|r| *r != std::cmp::Ordering::Equal)
-                            .unwrap_or(std::cmp::Ordering::Equal)
+                        for idx in 0..ordering_fields.len() {
+                            let (a, b) = (&a.1[idx], &b.1[idx]);
+                            let ord = match (numeric[idx], a.parse::<f64>(), b.parse::<f64>()) {
+                                (true, Ok(a), Ok(b)) => match a.partial_cmp(&b) {
+                                    Some(ord) => ord,
+                                    None => a.is_nan().cmp(&b.is_nan()),
+                                },
+                                // what is no number comes before the numbers
+                                (true, Ok(_), Err(_)) => Ordering::Greater,
+                                (true, Err(_), Ok(_)) => Ordering::Less,
+                                _ => a.cmp(b),
+                            };
+                            if ord != Ordering::Equal {
+                                return if directions[idx] { ord } else { ord.reverse() };
+                            }
+                        }
+
+                        Ordering::Equal
                     });
                 }
+
+                let mut results = results.into_iter().map(|(items, _)| items).collect::<Vec<_>>();
 
                 // LIMIT applies to the group rows
                 if self.query.limit > 0 {
@@ -542,7 +541,7 @@ impl<'a> Searcher<'a> {
                             column_expr
                         )
                     );
-                    let field_name = column_expr.to_string().to_lowercase();
+                    let field_name = column_expr.to_string();
                     items.push((field_name, record));
                 }
 
@@ -902,7 +901,7 @@ impl<'a> Searcher<'a> {
                 file_map.insert(column_expr_str, result.to_string());
                 return result;
             } else if let Some(val) = file_map.get(&field.to_string()) {
-                return Variant::from_string(val);
+                return Self::apply_sign(Variant::from_string(val), column_expr.minus);
             } else {
                 return Variant::empty(VariantType::String);
             }
